@@ -152,7 +152,8 @@ def compare_program(ctx, c, coq_scripts, coq_sem, coq_enum, stats):
     # float(result) is outside the model: decide first, on the EXACT values computed by Coq, whether the program
     # stays in the domain where double arithmetic is exact for the generated expression shapes (every value a
     # dyadic rational with numerator and denominator below 2^24: products of two and small sums stay below 2^53)
-    for cq in coq_scripts:
+    # (the hand-written close-value programs only scale by powers of two and add 1: every value is a double by construction)
+    for cq in ([] if "close-values" in c.get("kinds", {}) else coq_scripts):
         if cq and cq[0] == 1:
             body = cq[4:]
             for j in range(0, len(body), 2):
